@@ -1,10 +1,12 @@
 """C07 — intersect is set intersection (DESIGN §5 C07)."""
+from .. import invariant
 from .. import intervals
 from .common import blame_rows, interval_table, set_table
 
 
 def check(ctx, rep):
     prog = ctx.prog()
+    invariant.check_invariant(ctx, rep, prog, with_new=False)
     env = intervals.Env(prog)
     # T-NEW: BoundSet::new = validity of a cut pair
     rows = intervals.table_new(prog, env)
@@ -122,3 +124,67 @@ def t_ord(rep, prog, env):
                      % (c["result"], c["accept"]), where=c.get("where"))
     rep.notes.append("Bound::cmp table: %d cells extracted, %d cross-kind cells are judged through their callers "
                      "(BoundSet::new, allows_any) only" % (len(cells), n_cross))
+    if any(c["status"] != "ok" for c in cells):
+        ord_witness(rep, prog, env)
+
+
+def ord_witness(rep, prog, env):
+    """Bound::cmp looks into the versions itself (packs the components, compares fields): the order abstraction does not
+    apply. Witness search on concrete versions, including components beyond 32 bits: a same-kind pair ordered against the
+    cuts is a genuine violation; none found leaves T-ORD inconclusive."""
+    from .. import minver
+    from ..interp import Cell, Inconclusive, Interp, Panic, Ptr, ordering_to_int
+    rule = "T-ORD-WITNESS"
+    rep.rule(rule, 0, "witness search for Bound::cmp on concrete versions (small, neighbouring, prerelease, beyond 2^32)")
+    W = [(1, 0, 0, ()), (1, 0, 1, ()), (1, 1, 0, ()), (1, 0, 1 << 32, ()), (1, 1 << 32, 0, ()), (2, 0, 0, ()),
+         (1, 0, 0, (0,)), (1, 0, 0, (1,)), (1 << 40, 0, 0, ()), (0, 1 << 40, 1 << 40, ()), (1, 0, (1 << 32) + 5, ())]
+    bounds = []
+    for kind in "LU":
+        bounds.append((kind, "U", None))
+        for pk in "IE":
+            for v in W:
+                bounds.append((kind, pk, v))
+
+    def cutpos(b):
+        kind, pk, v = b
+        if pk == "U":
+            return None
+        return (v, (0 if pk == "I" else 1) if kind == "L" else (1 if pk == "I" else 0))
+    n = bad = 0
+    for a in bounds:
+        for b in bounds:
+            if a[0] != b[0]:
+                continue
+            pol = minver.MinPolicy()
+            pol.witness = True
+            it = Interp(prog, pol, overrides={})
+            A = env.bound(a[0], a[1], minver.mk_version(prog, "a", a[2]) if a[2] else None)
+            B = env.bound(b[0], b[1], minver.mk_version(prog, "b", b[2]) if b[2] else None)
+            try:
+                r = ordering_to_int(it.call_body(intervals.BOUND_CMP, [Ptr(Cell(A)), Ptr(Cell(B))]))
+            except (Inconclusive, Panic):
+                continue
+            n += 1
+            ca, cb = cutpos(a), cutpos(b)
+            if ca is None or cb is None:
+                if ca is None and cb is None:
+                    exp = 0
+                elif ca is None:
+                    exp = -1 if a[0] == "L" else 1
+                else:
+                    exp = 1 if a[0] == "L" else -1
+            else:
+                c = minver.vcmp(ca[0], cb[0])
+                exp = c if c else (ca[1] > cb[1]) - (ca[1] < cb[1])
+            if r == exp:
+                rep.ok(rule)
+                continue
+            bad += 1
+            if bad <= 3:
+                def bs(x):
+                    return "%s(%s)" % ({"L": "Lower", "U": "Upper"}[x[0]] + "." + {"U": "Unbounded", "I": "Including", "E": "Excluding"}[x[1]],
+                                       minver.vstr(x[2]) if x[2] else "")
+                rep.fail(rule, "range::Bound::cmp|%s|%s vs %s" % (rule, a[0] + a[1], b[0] + b[1]),
+                         "Bound::cmp(%s, %s) = %d, the cut order says %d" % (bs(a), bs(b), r, exp),
+                         example="%s vs %s" % (bs(a), bs(b)))
+    rep.analysed_item("witness search for Bound::cmp: %d same-kind pairs of concrete bounds, %d mismatches" % (n, bad))
